@@ -1035,7 +1035,7 @@ func transfer(db vm.StateDB, from, to common.Address, v *big.Int) {
 	db.AddBalance(to, v)
 }
 
-func runCase(run *hx.Run, c *caseSpec, opHist *[256]int) {
+func runCase(run *hx.Run, c *caseSpec, opHist *[256]int) (class string) {
 	desc := c.String()
 	run.Current(desc)
 	sdb, err := state.New(common.Hash{}, state.NewDatabase(aquadb.NewMemDatabase()))
@@ -1122,9 +1122,9 @@ func runCase(run *hx.Run, c *caseSpec, opHist *[256]int) {
 		}
 		run.Violate("panic", sig, desc, out)
 		run.Count("outcome:panic")
-		return
+		return "panic"
 	}
-	class := errClass(rerr)
+	class = errClass(rerr)
 	// ---- top-level judgements
 	if left > c.gas {
 		tr.violate("gas-overuse", "leftover>given", fmt.Sprintf("given=%d leftover=%d", c.gas, left))
@@ -1200,7 +1200,7 @@ func runCase(run *hx.Run, c *caseSpec, opHist *[256]int) {
 	// ---- case line for the model
 	if tr.nsteps > stepCap {
 		run.Count("model:skipped-long-trace")
-		return
+		return class
 	}
 	var sb strings.Builder
 	vnz := 0
@@ -1231,6 +1231,7 @@ func runCase(run *hx.Run, c *caseSpec, opHist *[256]int) {
 		}
 	}
 	run.Case(sb.String(), fmt.Sprintf("%s %d %d %d %d %d", oc, left, tr.nsteps+1, tr.maxDepth, tr.maxMem, tr.cs))
+	return class
 }
 
 // ---------------------------------------------------------------------------------------------------------------------
@@ -1397,8 +1398,11 @@ func main() {
 					c.kind = "static"
 				}
 				t0 := time.Now()
-				runCase(run, c, &opHist)
+				cls := runCase(run, c, &opHist)
 				famTime[c.family] += time.Since(t0).Seconds()
+				if h == 0 && cls == "fail-invalidOpcode" {
+					break // not an opcode of this instruction set: the stack height is irrelevant
+				}
 			}
 		}
 	}
